@@ -91,8 +91,27 @@ class U:
     def seq(self, name, nonempty_elems=False, kind=list):
         return SSeq.fresh(name, nonempty_elems, kind)
 
-    def obj(self, clsname, fields_=None, methods_=None, const=(), factories=None, real_cls=None, shared=True):
+    def obj(self, clsname, fields_=None, methods_=None, const=(), factories=None, real_cls=None, shared=True,
+            init=None):
         o = SObj(clsname, fields_, methods_, const)
+        if init is not None:
+            # discover fields the sidecar does not mention by running the REAL __init__ (instrumented) on an
+            # empty object: such a field gets an arbitrary value of its initial type (no invariant is known
+            # for it), so code that starts to depend on new state is explored for every value of that state
+            mod, qn, a, kw = init
+            tmp = SObj(clsname, {}, methods_, ())
+            f0 = self.load(mod, qn)
+            r0 = self.call(f0, tmp, *a, **kw)
+            if r0.ok:
+                for k, v in fields(tmp).items():
+                    if k in fields(o):
+                        continue
+                    try:
+                        fields(o)[k] = fresh_like(f"{clsname}.{k}", v)
+                        self.c.notes.append(f"field {clsname}.{k} is not covered by the sidecar contract: arbitrary {type(v).__name__}")
+                    except Unsupported:
+                        fields(o)[k] = v
+                        self.c.notes.append(f"field {clsname}.{k} is not covered by the sidecar contract: kept at its __init__ value")
         object.__setattr__(o, "_o_factories", dict(factories or {}))
         if real_cls is not None:
             object.__setattr__(o, "_o_real_cls", real_cls)
